@@ -179,7 +179,7 @@ class Injector:
                 self.fired[i] = True
         for i, pl in enumerate(self.plans):
             if pl["kind"] == "stall" and q.host == "user" and q.nsteps == pl["j"]:
-                others = [f for k2, f in enumerate(self.fired) if self.plans[k2]["kind"] not in ("stall", "usertry", "delay")]
+                others = [f for k2, f in enumerate(self.fired) if self.plans[k2]["kind"] not in ("stall", "usertry", "delay", "prio")]
                 if not all(others):
                     return True
         return False
@@ -189,7 +189,8 @@ class Injector:
             if not self.fired[i] and pl["kind"] == "usertry" and self.run is not None:
                 st = world.last_status.get(world.out)
                 if pl.get("when") == "free":
-                    go = st is not None and st["sub"] == "" and not st["complete"] and world._active() > 0
+                    go = st is not None and st["sub"] == "" and not st["complete"] and world._active() > 0 and \
+                        world.steps >= pl.get("t", 0)
                 else:
                     go = st is not None and world.steps >= pl["t"]
                 if go:
@@ -199,9 +200,16 @@ class Injector:
         free = [m for m in moves if not self._stalled(world, m)]
         if free:
             moves = free
+        for pl in self.plans:
+            # "prio": the named command runs to its end before anything else moves (submit-jobs returns within a second on a
+            # real system, long before the first batch starts)
+            if pl["kind"] == "prio":
+                first = [m for m in moves if m[0] == "step" and world.proc(m[1]).label == pl["label"]]
+                if first:
+                    moves = first
         mv = moves[self.rng.randrange(len(moves))]
         for i, pl in enumerate(self.plans):
-            if self.fired[i] or pl["kind"] in ("usertry", "stall", "delay"):
+            if self.fired[i] or pl["kind"] in ("usertry", "stall", "delay", "prio"):
                 continue
             if mv[0] != "step":
                 continue
